@@ -227,6 +227,42 @@ class Planned:
   pass
 
 
+class DiskFS:
+  """The few SimFS operations the planner runs need, over a real directory:
+  used by the runs that let the planner work with its defaults (builtin open,
+  os.path, os.stat) instead of the seams."""
+
+  def __init__(self, root):
+    self.root = root
+
+  def has(self, p):
+    return os.path.isfile(p)
+
+  def put(self, p, data):
+    os.makedirs(os.path.dirname(p), exist_ok=True)
+    with open(p, "wb") as f:
+      f.write(data.encode("utf8") if isinstance(data, str) else data)
+
+  def makedirs(self, p, exist_ok=True):
+    os.makedirs(p, exist_ok=True)
+
+  def get_text(self, p):
+    with open(p, "rb") as f:
+      return f.read().decode("utf8")
+
+  open = staticmethod(open)
+
+  def to_simfs(self):
+    """Everything under the root, loaded into an in-memory FS (same paths)."""
+    fs = simfs.SimFS(ro_roots=[])
+    for d, _, names in os.walk(self.root):
+      fs.makedirs(d)
+      for n in sorted(names):
+        with open(os.path.join(d, n), "rb") as f:
+          fs.put(os.path.join(d, n), f.read())
+    return fs
+
+
 def run_planner(wl, fs=None, graph=None, conf=None):
   """Runs the real planner over the workload inside a SimFS."""
   m = mods()
@@ -240,8 +276,10 @@ def run_planner(wl, fs=None, graph=None, conf=None):
   runner_mod = m["runner"]
   saved = runner_mod.PYTYPE_SINGLE
   runner_mod.PYTYPE_SINGLE = ["pytype-single"]
+  import contextlib
+  seams = contextlib.nullcontext() if isinstance(fs, DiskFS) else simfs.Installed(fs)
   try:
-    with simfs.Installed(fs):
+    with seams:
       fs.makedirs(conf.output)
       deps = runner_mod.deps_from_import_graph(graph)
       if wl.get("thin_cycle_deps") is not None:
@@ -776,15 +814,49 @@ def evaluate(trace, want_events=False):
                                       "edges": 0},
          "sigs": set(), "nontrivial": 0}
   st = out["stats"]
+  scratch = None
+  if trace.get("disk"):
+    # this run lets the planner use the real file system: the project is
+    # re-rooted under a scratch directory, planned there (prehistory
+    # included), and what the planner left is then loaded into memory
+    import tempfile
+    scratch = tempfile.mkdtemp(prefix="verif-plan-", dir="/tmp")
+    from sim import ninja_validate
+    wl = ninja_validate.reroot(wl, scratch)
+    trace = dict(trace, workload=wl,
+                 prehistory=[ninja_validate.reroot(o, scratch)
+                             for o in trace.get("prehistory", ())])
+    st["probes"]["planner_on_real_fs"] = 1
   try:
-    fs0 = None
+    fs0 = DiskFS(scratch) if scratch else None
     for old in trace.get("prehistory", ()):
       # earlier planner runs over the same output directory; only their
       # leftovers matter
-      fs0 = run_planner(old, fs0).fs
+      pl0 = run_planner(old, fs0)
+      fs0 = pl0.fs
       st["probes"]["planner_runs_over_leftovers"] = (
           st["probes"].get("planner_runs_over_leftovers", 0) + 1)
+      if old.get("was_built") and pl0.ninja_text:
+        # ... and that earlier version was also BUILT (completely, or until a
+        # kill): its stubs - first-pass ones included - are lying around
+        try:
+          plan0, steps0 = read_plan(pl0)
+        except (ninja_model.PlanRejected, StepUnparseable):
+          steps0 = {}
+        outs = sorted(s0.output for s0 in steps0.values())
+        keep = old["was_built"]
+        for i, o in enumerate(outs):
+          if keep == "all" or (i * 7919 + len(os.path.basename(o))) % 3 != 0:
+            fs0.makedirs(os.path.dirname(o))
+            fs0.put(o, "# stub left by an earlier build\n")
+            if scratch:
+              # newer than every source, as the output of a build is
+              os.utime(o, (2.0e9 + i, 2.0e9 + i))
+        st["probes"]["leftover_stubs_of_earlier_build"] = (
+            st["probes"].get("leftover_stubs_of_earlier_build", 0) + 1)
     planned = run_planner(wl, fs0)
+    if scratch:
+      planned.fs = fs0.to_simfs()
   except Exception as ex:  # pylint: disable=broad-except
     import traceback
     out["violation"] = {"class": "PLANNER_CRASH", "oracle": "planner",
@@ -792,7 +864,12 @@ def evaluate(trace, want_events=False):
                         "tb": traceback.format_exc()[-1500:]}
     out["digest"] = log.digest()
     return out
-  log.add("plan", planned.ninja_text)
+  finally:
+    if scratch:
+      import shutil
+      shutil.rmtree(scratch, ignore_errors=True)
+  log.add("plan", (planned.ninja_text or "").replace(scratch, "/SCRATCH")
+          if scratch else planned.ninja_text)
   if planned.ninja_text is None:
     out["violation"] = {"class": "I1", "oracle": "plan_accepted",
                         "what": "no build file was written"}
@@ -884,6 +961,13 @@ def earlier_version(rng, wl):
       old["inputs"] = pick
   if rng.random() < 0.2:
     old["conf"]["keep_going"] = not old["conf"]["keep_going"]
+  if rng.random() < 0.6:
+    old["was_built"] = rng.choice(["all", "all", "part"])
+  if rng.random() < 0.25:
+    # nothing but time has passed: the very same project, planned again
+    old["edges"] = [list(e) for e in wl["edges"]]
+    old["inputs"] = list(wl["inputs"])
+    old["modules"] = [dict(m) for m in wl["modules"]]
   return old
 
 
@@ -894,6 +978,10 @@ def generate(rng):
         "schedules": [gen_schedule(rng, 2 * len(wl["modules"])) for _ in range(n_sched)]}
   if rng.random() < 0.3:
     tr["prehistory"] = [earlier_version(rng, wl) for _ in range(rng.choice([1, 1, 2]))]
+  if rng.random() < (0.25 if "prehistory" in tr else 0.03):
+    # the planner works on a real directory with its defaults (builtin open,
+    # os.path, os.stat) instead of the in-memory FS behind the seams
+    tr["disk"] = True
   return tr
 
 
